@@ -3,10 +3,12 @@ CONSTANTS
   Variant = "dumpfirst"
   Level = 2
   MaxFaults = 2
+  Ext = 2
   Emit = TRUE
 INVARIANT TypeOK
 INVARIANT InvRunAgrees
 INVARIANT InvNoSilentOverwrite
+INVARIANT InvNoSilentOverwriteLocal
 INVARIANT InvAllOrNothingModuloKnown
 INVARIANT InvSavedReparsesModuloKnown
 INVARIANT InvCauseSound
